@@ -141,6 +141,29 @@ def run_inverse(ctx, spec):
             ctx.violation('b23-inverse', 'b23t(b23p(%r)) = %r' % (t, t2), case)
         if abs(p / b23_pressure(t + TK) - 1) > 1e-9:
             ctx.violation('b23p-vs-release', 'b23p(%r) = %r, release equation gives %r' % (t, p, b23_pressure(t + TK)), case)
+    # the boundary functions are also evaluated elementwise on arrays: the same numbers as the scalar calls, and the
+    # caller's argument must come back untouched (second call on the same array = first call)
+    import numpy as np
+    ts = np.array(lin(350.0, 590.0, 25))
+    for make, label in ((lambda: ts.copy(), 'array'), (lambda: np.array(450.0), '0-d array'), (lambda: np.float64(450.0), 'numpy scalar')):
+        arg = make()
+        keep = np.array(arg, copy=True)
+        case = {'clause': 'b23p on ' + label}
+        with ctx.guard(case) as g:
+            first = np.array(W.b23p(arg), dtype=float)
+            second = np.array(W.b23p(arg), dtype=float)
+            scalar = np.array([W.b23p(float(x)) for x in np.atleast_1d(keep)])
+        if g.raised is not None:
+            continue
+        ctx.evaluated()
+        ctx.count('array_argument_calls')
+        ctx.case(('b23p-array', label), True)
+        if not np.array_equal(np.array(arg), keep):
+            ctx.violation('b23p:argument-modified', 'b23p changed its %s argument in place (first element %r -> %r)' % (
+                label, float(np.atleast_1d(keep)[0]), float(np.atleast_1d(np.array(arg))[0])), case)
+        elif not np.array_equal(np.atleast_1d(first), np.atleast_1d(second)) or not np.allclose(np.atleast_1d(first), scalar, rtol=1e-14, atol=0):
+            ctx.violation('b23p:array-differs-from-scalar', 'b23p on a %s: %r, then %r; scalar calls give %r' % (
+                label, np.atleast_1d(first)[:2], np.atleast_1d(second)[:2], scalar[:2]), case)
     for p in [W.b23p(350.0), 100e6] + lin(16.5292e6, 100e6, m):
         case = {'clause': 'b23p(b23t(p))', 'p': p}
         with ctx.guard(case) as g:
